@@ -107,3 +107,14 @@ Print Assumptions C16_duplicate_rejected.
 Print Assumptions C16_create_lookup.
 Print Assumptions C16_hist.
 Print Assumptions C16_nonvacuous.
+
+From HT Require Import Proofs.WFProofs Proofs.RegHistProofs.
+Theorem C16_lookup_self_description : forall ops w a b r,
+  WF w -> RegOK w -> no_factory_submitter w ops ->
+  reg_find (w_reg (run w ops)) a b = Some r ->
+  exists ps, w_pairs (run w ops) (f_pair r) = Some ps /\
+    p_a0 ps = f_a0 r /\ p_a1 ps = f_a1 r /\ p_d0 ps = f_d0 r /\ p_d1 ps = f_d1 r /\ p_lp ps = f_lp r /\
+    p_wl ps = f_wl r /\ p_min0 ps = f_min0 r /\ p_min1 ps = f_min1 r /\ p_comm ps = f_comm r /\
+    same_assets (f_a0 r) (f_a1 r) a b = true.
+Proof. exact lookup_is_self_description. Qed.
+Print Assumptions C16_lookup_self_description.
